@@ -103,8 +103,8 @@ func createTables(s *eng.Session, coll string, multi bool) {
 	if multi {
 		idx = "a, b"
 	}
-	s.MustExec(fmt.Sprintf("CREATE TABLE ft (id INT PRIMARY KEY, a VARCHAR(200) COLLATE %s, b VARCHAR(200) COLLATE %s, FULLTEXT idx (%s))", c, c, idx))
-	s.MustExec(fmt.Sprintf("CREATE TABLE tw (id INT PRIMARY KEY, a VARCHAR(200) COLLATE %s, b VARCHAR(200) COLLATE %s)", c, c))
+	s.MustExec(fmt.Sprintf("CREATE TABLE ft (id INT PRIMARY KEY, a VARCHAR(700) COLLATE %s, b VARCHAR(700) COLLATE %s, FULLTEXT idx (%s))", c, c, idx))
+	s.MustExec(fmt.Sprintf("CREATE TABLE tw (id INT PRIMARY KEY, a VARCHAR(700) COLLATE %s, b VARCHAR(700) COLLATE %s)", c, c))
 }
 
 func matchExpr(multi bool, q string) string {
@@ -286,6 +286,17 @@ type Step struct {
 var vocab = []string{"abc", "Abc", "ABC", "b'a1", "a_1", "ab", "xyz", "abcd", "it's", "Xyz", "a1b2"}
 var seps = []string{" ", ",", "''", "'", "-", ". ", " '", "\n", "  "}
 
+// words at the upper length boundary of the index (83, 84, 84, 85 characters; one 84 in capitals):
+// the specification says which of them are words (FullText!MaxWordLen), the driver only spells them
+var longVocab = []string{strings.Repeat("q", 83), strings.Repeat("q", 84), "Z" + strings.Repeat("k", 83), strings.Repeat("q", 85), strings.Repeat("Q", 84)}
+
+func genWord(rng *rand.Rand) string {
+	if rng.Intn(5) == 0 {
+		return longVocab[rng.Intn(len(longVocab))]
+	}
+	return vocab[rng.Intn(len(vocab))]
+}
+
 func genText(rng *rand.Rand) string {
 	n := 1 + rng.Intn(3)
 	var b strings.Builder
@@ -296,7 +307,7 @@ func genText(rng *rand.Rand) string {
 		if i > 0 {
 			b.WriteString(seps[rng.Intn(len(seps))])
 		}
-		b.WriteString(vocab[rng.Intn(len(vocab))])
+		b.WriteString(genWord(rng))
 	}
 	if rng.Intn(5) == 0 {
 		b.WriteString(seps[rng.Intn(len(seps))])
@@ -357,11 +368,9 @@ func runHistory(s *eng.Session, hid int, seed int64, steps int, w *vio.Writer, r
 	coll := []string{"ci", "bin"}[rng.Intn(2)]
 	multi := rng.Intn(2) == 0
 	createTables(s, coll, multi)
-	queries := []string{"abc", "Abc xyz", "b'a1", "a_1 ab", "abcd,it's", genText(rng), genText(rng)}
+	queries := []string{"abc", "Abc xyz", "b'a1 a_1 ab", "abcd,it's", longVocab[1], longVocab[0] + " " + longVocab[3] + "," + longVocab[2], genText(rng), genText(rng)}
 	nextID := 1
 	indexed := true
-	// three of five histories never re-write an existing key through a failed insert ("clean")
-	clean := hid%5 < 3
 	h := &hist{hid: hid, coll: coll, multi: multi, indexed: true, dirty: map[string]bool{}, queries: queries}
 	live := map[int]bool{}
 	hitOrNew := func(wantHit bool) (int, bool) {
@@ -391,6 +400,23 @@ func runHistory(s *eng.Session, hid int, seed int64, steps int, w *vio.Writer, r
 		onlyFT := false
 		x := rng.Intn(100)
 		switch {
+		case k > 2 && x < 7:
+			// DELETE + re-INSERT: a new document under a primary key that was used and deleted before
+			id := nextID
+			op = "insert"
+			dead := []int{}
+			for d := 1; d < nextID; d++ {
+				if !live[d] {
+					dead = append(dead, d)
+				}
+			}
+			if len(dead) > 0 {
+				id, op = dead[rng.Intn(len(dead))], "insert-reuse"
+			}
+			if id == nextID {
+				nextID++
+			}
+			q = fmt.Sprintf("INSERT INTO %%T (id, a, b) VALUES (%d, %s, %s)", id, genVal(rng), genVal(rng))
 		case k <= 2 || x < 22:
 			op = "insert"
 			q = fmt.Sprintf("INSERT INTO %%T (id, a, b) VALUES (%d, %s, %s)", nextID, genVal(rng), genVal(rng))
@@ -419,11 +445,11 @@ func runHistory(s *eng.Session, hid int, seed int64, steps int, w *vio.Writer, r
 			op = "delete-many"
 			q = fmt.Sprintf("DELETE FROM %%T WHERE id %% 2 = %d", rng.Intn(2))
 		case x < 82:
-			id, hit := hitOrNew(!clean && rng.Intn(3) > 0)
+			id, hit := hitOrNew(rng.Intn(3) > 0)
 			op = map[bool]string{true: "replace-hit", false: "replace-new"}[hit]
 			q = fmt.Sprintf("REPLACE INTO %%T (id, a, b) VALUES (%d, %s, %s)", id, genVal(rng), genVal(rng))
 		case x < 86:
-			id, hit := hitOrNew(!clean && rng.Intn(3) > 0)
+			id, hit := hitOrNew(rng.Intn(3) > 0)
 			op = map[bool]string{true: "upsert-hit", false: "upsert-new"}[hit]
 			q = fmt.Sprintf("INSERT INTO %%T (id, a, b) VALUES (%d, %s, %s) ON DUPLICATE KEY UPDATE a = %s", id, genVal(rng), genVal(rng), genVal(rng))
 		case x < 88:
